@@ -44,3 +44,8 @@ def run(repo, res, tier):
     from .. import lexrules as _lx15, entryrules as _er15
     _lx15.rule_lex_text(repo, res)
     _er15.rule_f1(repo, res, "__init__")
+    # ... also through the pvl.new entry points; and a parser given only a decoder enforces that decoder's grammar
+    if "new" in repo.modules:
+        _er15.rule_f1(repo, res, "new")
+    from .. import hookrules as _hk15
+    _hk15.rule_ctor_default(repo, res)
